@@ -5,6 +5,8 @@
 //   ctcsub <inbox> => <outbox>                                         contracting
 #include "common.h"
 #include "expr_io.h"
+#include "mp_dag.h"
+#include "elem_gen.h"
 using namespace ibex; using namespace vh; using namespace std;
 
 static long emitted = 0;
@@ -72,6 +74,56 @@ static bool make_scalar_ctr(Rng& r, const Array<const ExprSymbol>& x, const Vect
 static void emit_points(Rng& r, const string& dags, const string& specs, const IntervalVector& in, const IntervalVector& out, const Vector& planted) {
   EMIT("ctcsub %s => %s\n", tok(in).c_str(), tok(out).c_str());
   for (auto& p : sample_points(r, in, out, planted)) EMIT("ctcpt %s %s %s => %s\n", dags.c_str(), specs.c_str(), ptok(p).c_str(), tok(out).c_str());
+}
+
+// ---- workload c04t: constraints with elementary functions.  A planted point p is made feasible BY CONSTRUCTION: the
+// right-hand side of each constraint contains the rigorous MPFR enclosure of f_j(p) (mp_dag.h), so p must survive every
+// contraction; the contracted box must be inside the input box.
+//   ctckeep <name> <inbox> <pt> => <outbox>
+static void wl_c04t(Rng& r, long n) {
+  for (long it = 0; it < n; it++) {
+    try {
+      int nv = r.range(1, 3), m = r.range(1, 2);
+      Array<const ExprSymbol> sx(nv); for (int i = 0; i < nv; i++) sx.set_ref(i, ExprSymbol::new_(("z" + to_string(i)).c_str(), Dim::scalar()));
+      Vector p(nv); for (int i = 0; i < nv; i++) p[i] = r.coin(70) ? r.range(-16, 16) / 8.0 : r.range(-100, 100) / 8.0;
+      SystemFactory fac; fac.add_var(sx);
+      vector<Function*> fs; vector<Interval> ys; bool ok = true;
+      for (int j = 0; j < m && ok; j++) {
+        GenCfg cfg; cfg.allow_vec = false; cfg.allow_apply = false; cfg.allow_div = r.coin(40); cfg.max_depth = 2;
+        ExprGen g(r, cfg); for (int i = 0; i < nv; i++) g.syms.push_back(&sx[i]);
+        const ExprNode& e = gen_elem(r, g, r.range(1, 2));
+        double lo, hi; if (!mp_eval(e, sx, p, lo, hi)) { ok = false; break; }
+        Interval y;
+        switch (r.below(5)) { case 0: y = Interval(lo, hi); break; case 1: y = Interval(lo - r.range(0, 8) / 8.0, hi + r.range(0, 8) / 8.0); break; case 2: y = Interval(NEG_INFINITY, hi + r.range(0, 4) / 8.0); break;
+          case 3: y = Interval(lo - r.range(0, 4) / 8.0, POS_INFINITY); break; default: y = Interval(lo - std::ldexp(1.0, -(int)r.range(10, 40)), hi + std::ldexp(1.0, -(int)r.range(10, 40))); }
+        Array<const ExprSymbol> cp(nv); for (int i = 0; i < nv; i++) cp.set_ref(i, ExprSymbol::new_(sx[i].name, Dim::scalar()));
+        fs.push_back(new Function(cp, ExprCopy().copy(sx, cp, e), "f")); ys.push_back(y);
+        // in the system: two inequalities  e - y.ub <= 0,  e - y.lb >= 0  (when bounded)
+        if (y.ub() < POS_INFINITY) fac.add_ctr(ExprCtr(e - ExprConstant::new_scalar(y.ub()), LEQ));
+        if (y.lb() > NEG_INFINITY) fac.add_ctr(ExprCtr(e - ExprConstant::new_scalar(y.lb()), GEQ));
+      }
+      if (ok) {
+        System sys(fac);
+        CtcFwdBwd fb(*fs[0], ys[0]);
+        CtcHC4 hc4(sys, r.coin() ? 0.01 : 0.5, r.coin(30));
+        Ctc3BCid cid(hc4, r.range(2, 10), r.range(1, 3));
+        CtcAcid acid(sys, hc4);
+        CtcCompo compo(fb, cid);
+        Ctc* cs[5] = {&fb, &hc4, &cid, &acid, &compo}; const char* nm[5] = {"fwdbwd", "hc4", "3bcid", "acid", "compo"};
+        for (int k = 0; k < 8; k++) {
+          int w = r.below(5);
+          IntervalVector in(nv);
+          for (int i = 0; i < nv; i++) { double a = p[i] - (r.coin(20) ? 0 : r.range(0, 24) / 8.0), b = p[i] + (r.coin(20) ? 0 : r.range(0, 24) / 8.0); if (r.coin(10)) a = NEG_INFINITY; if (r.coin(10)) b = POS_INFINITY; in[i] = Interval(a, b); }
+          IntervalVector out = in;
+          cs[w]->contract(out);
+          check_round_up(nm[w]);
+          EMIT("ctckeep %s %s %s => %s\n", nm[w], tok(in).c_str(), ptok(p).c_str(), tok(out).c_str());
+        }
+      }
+      for (auto f : fs) delete f;
+    } catch (VerifAbort& a) { EMIT("harnesserror c04t abort => 0\n"); }
+      catch (std::exception& e) { EMIT("harnesserror c04t %s => 0\n", typeid(e).name()); }
+  }
 }
 
 int main(int argc, char** argv) {
@@ -169,6 +221,7 @@ int main(int argc, char** argv) {
       }
       } catch (std::exception& e) { EMIT("harnesserror %s => 0\n", e.what()); }
     }
+  } else if (wl == "c04t") { wl_c04t(r, n);
   } else { fprintf(stderr, "unknown workload\n"); return 2; }
   fprintf(stderr, "emitted %ld\n", emitted);
   return 0;
